@@ -157,10 +157,16 @@ class Execution:
         if mode is None:
             return None
         if isinstance(mode, tuple):
-            # (mode, names of functions executed atomically)
-            if frame.f_code.co_name in mode[1]:
-                return None
-            mode = mode[0]
+            if mode[0].endswith('-only'):
+                # (mode + '-only', names of the only functions with scheduling points)
+                if frame.f_code.co_name not in mode[1]:
+                    return None
+                mode = mode[0][:-5]
+            else:
+                # (mode, names of functions executed atomically)
+                if frame.f_code.co_name in mode[1]:
+                    return None
+                mode = mode[0]
         if mode == 'call':
             self.point(self.running, (os.path.basename(frame.f_code.co_filename), frame.f_code.co_name))
             return None
